@@ -1352,7 +1352,9 @@ class BaseGaussianState(BaseState):
         cutoff = kwargs.get("cutoff", 10)
         mu, cov = self.reduced_gaussian(modes)  # pylint: disable=unused-variable
 
-        if self.is_pure:
+        # the reduced state of a pure state is in general mixed; the state vector can
+        # only be used when no mode is traced out
+        if self.is_pure and len(modes) == self._modes:
             psi = twq.state_vector(
                 mu,
                 cov,
